@@ -10,6 +10,10 @@ QUICK = dict(gen=500)
 THOROUGH = dict(gen=15000)
 TRUSTED = ['the sink below the timeout sink is a harness stand-in: it answers what and when the script says',
            'timer actions are observed through a proxy around GLOBAL_TIMER_QUEUE.Schedule; their effects are predicted']
+SOURCE_IMPORTS = ['ScalesModel.Model.FrontEnd']
+SOURCE_CONSTANTS = {
+    'Scales.FrontEnd.resolution': ('import scales.timer_queue as tq', 'round(tq.GLOBAL_TIMER_QUEUE._resolution * 1e6)'),
+}
 ASSUMPTIONS = ['timer queue contract (C10): actions run once, at their rounded deadline on the loop clock',
                'issue instants are off the 10 ms grid and time-outs are not multiples of 10 ms (tie policy, DESIGN 2.4)',
                'blocking get() of the synchronous proxy form is the gevent primitive']
